@@ -351,18 +351,6 @@ func wmExec(ops []string) []string {
 		done chan error
 	}
 	var waits []pendingWait
-	flushWaits := func() {
-		// report waiters that have returned by now (the model says which ones must have)
-		for k := 0; k < len(waits); {
-			select {
-			case err := <-waits[k].done:
-				_ = err
-				waits = append(waits[:k], waits[k+1:]...)
-			default:
-				k++
-			}
-		}
-	}
 	for i, op := range ops {
 		t := strings.Split(op, " ")
 		switch t[0] {
@@ -396,29 +384,40 @@ func wmExec(ops []string) []string {
 			w.VerifSync()
 			res[i] = strconv.FormatUint(w.DoneUntil(), 10)
 		case "wait":
-			// "wait ts": WaitForMark with a live context; answer = released now / still waiting
-			ts, _ := strconv.ParseUint(t[1], 10, 64)
+			// "wait id ts": WaitForMark(ts) from its own goroutine with a live context
+			id, _ := strconv.Atoi(t[1])
+			ts, _ := strconv.ParseUint(t[2], 10, 64)
 			done := make(chan error, 1)
 			go func() { done <- w.WaitForMark(context.Background(), ts) }()
-			// registration itself goes through the channel: sync twice so that it is handled
-			time.Sleep(200 * time.Microsecond)
-			w.VerifSync()
-			select {
-			case err := <-done:
-				if err != nil {
-					res[i] = "err"
-				} else {
-					res[i] = "released"
-				}
-			case <-time.After(2 * time.Millisecond):
-				waits = append(waits, pendingWait{i, ts, done})
-				res[i] = "waiting"
-			}
-		case "waiters":
-			// how many registered waiters are still blocked
+			// the registration goes through the channel: give the goroutine time to send it, then sync
 			time.Sleep(300 * time.Microsecond)
-			flushWaits()
-			res[i] = strconv.Itoa(len(waits))
+			w.VerifSync()
+			waits = append(waits, pendingWait{id, ts, done})
+			res[i] = "ok"
+		case "chk":
+			// "chk id": has that WaitForMark call returned nil? (a call that has to stay blocked costs the full timeout)
+			id, _ := strconv.Atoi(t[1])
+			res[i] = "unknown"
+			for k := range waits {
+				if waits[k].idx != id {
+					continue
+				}
+				if waits[k].ts == ^uint64(0) {
+					res[i] = "released"
+					break
+				}
+				select {
+				case err := <-waits[k].done:
+					if err != nil {
+						res[i] = "err"
+					} else {
+						res[i] = "released"
+						waits[k].ts = ^uint64(0)
+					}
+				case <-time.After(40 * time.Millisecond):
+					res[i] = "waiting"
+				}
+			}
 		case "waitctx":
 			// WaitForMark with an already cancelled context on an index that is not reached: context error
 			ts, _ := strconv.ParseUint(t[1], 10, 64)
@@ -443,6 +442,7 @@ func wmGen(r *rand.Rand, n, length int) []Case {
 		nts := 2 + r.Intn(8)
 		open := map[uint64]int{}
 		var cur uint64
+		nwait := 0
 		for i := 0; i < length; i++ {
 			ts := uint64(r.Intn(nts))
 			if r.Intn(4) == 0 {
@@ -479,9 +479,21 @@ func wmGen(r *rand.Rand, n, length int) []Case {
 				ops = append(ops, fmt.Sprintf("b %d", ts), fmt.Sprintf("d %d", ts))
 				i++
 			}
+			if r.Intn(12) == 0 && nwait < 6 {
+				// a waiter on an index that may or may not be begun/finished itself
+				nwait++
+				ops = append(ops, fmt.Sprintf("wait %d %d", nwait, r.Intn(nts+4)))
+				tags["waiter"] = true
+			}
+			if r.Intn(25) == 0 {
+				ops = append(ops, fmt.Sprintf("waitctx %d", r.Intn(nts+4)))
+			}
 			if r.Intn(5) == 0 {
 				cur += uint64(r.Intn(2))
 			}
+		}
+		for k := 1; k <= nwait; k++ {
+			ops = append(ops, fmt.Sprintf("chk %d", k))
 		}
 		var tl []string
 		for t := range tags {
